@@ -239,6 +239,41 @@ def run_conc(heap_cls, c, snapshot, arena_index, blk, setup):
             return dict(obs=[], snap=snapshot(heap), setup_failed=True)
         if c['conc'].get('stale_pid'):
             heap._lastpid = -1          # as after fork(): os.getpid() != self._lastpid
+        if c['conc'].get('fork'):
+            # the threads run in a real forked child, on the heap object it inherited
+            import json
+            r, wfd = os.pipe()
+            pid = os.fork()
+            if pid == 0:
+                code = 0
+                try:
+                    os.close(r)
+                    out = run_threads(heap, got, c, snapshot, arena_index, blk)
+                    os.write(wfd, json.dumps(out).encode())
+                except BaseException:
+                    code = 3
+                finally:
+                    os._exit(code)
+            os.close(wfd)
+            data = b''
+            while True:
+                chunk = os.read(r, 65536)
+                if not chunk:
+                    break
+                data += chunk
+            os.close(r)
+            os.waitpid(pid, 0)
+            if not data:
+                return dict(obs=[], snap=None, stuck=True, events=[], trace=[], log=[], results=[],
+                            got=[], child_died=True)
+            return json.loads(data.decode())
+        return run_threads(heap, got, c, snapshot, arena_index, blk)
+    finally:
+        bh.threading = saved
+
+
+def run_threads(heap, got, c, snapshot, arena_index, blk):
+    if True:
         s = Scheduler(heap, got, c['conc']['progs'], blk)
         CURRENT[0] = s
         try:
@@ -271,5 +306,3 @@ def run_conc(heap_cls, c, snapshot, arena_index, blk, setup):
                     stuck=s.stuck, results=[[[r[0], b3(r[1]), r[2]] for r in w.results] for w in s.workers],
                     got=[b3(b) for b in got], foreign_arenas=len(extra),
                     live_raw=[b3(b) for b in heap._allocated_blocks])
-    finally:
-        bh.threading = saved
